@@ -114,6 +114,30 @@ def lookup(ctx):
     ctx.observe("hits", len(got))
 
 
+def full_uri(ctx):
+    """get_record(<full URI string>) finds the records whose identifier has exactly that URI, for any namespace URI"""
+    from prov.model import ProvDocument
+    from prov.identifier import Namespace, QualifiedName
+
+    d = ProvDocument()
+    u = ctx.str("u", 3, 2, "uri")
+    # validity: the scheme of the URI is not a prefix in scope (else 'scheme:rest' reads as a prefixed name)
+    for pfx in ("q", "prov", "xsd", "xsi"):
+        ctx.assume(not u.startswith(pfx + ":"))
+    ns = d.add_namespace("q", u)
+    l = ctx.str("l", 4, 1, "ascii")
+    other = ctx.str("m", 2, 1, "ascii")
+    r1 = d.entity(QualifiedName(ns, l))
+    r2 = d.agent(QualifiedName(ns, other))
+    for x, rec in ((u + l, r1), (u + other, r2)):
+        got = d.get_record(x)
+        want = [r for r in d.get_records() if r.identifier.uri == x]
+        ctx.check(got is not None and len(list(got)) == len(want) and all(a is b for a, b in zip(got, want)),
+                  "get_record(<full URI>) does not return the records having exactly that URI")
+        ctx.check(any(g is rec for g in got), "get_record(<full URI of an existing record>) does not find it")
+    ctx.observe("u", [u, l, other])
+
+
 # per record position: (indices into REC_KINDS, spellings of the identifier)
 MENUS = {
     "full": [((0, 1, 2, 3, 4, 5), (0, 1, 2, 3, 4, 5))],
@@ -137,6 +161,18 @@ def _shards(tier):
 
 
 OBLIGATIONS = [
+    Obligation(
+        name="full_uri",
+        fn=full_uri,
+        shards=[{}],
+        desc="for a namespace with a SYMBOLIC URI, looking a record up by its full URI string finds exactly that record "
+             "(the URI may contain the namespace URI more than once)",
+        bounds="namespace URI |u|<=3 (absolute-IRI shape), local parts |l|<=4 and |m|<=2 printable ASCII",
+        assumptions=["the URI's scheme is not a prefix in scope (q, prov, xsd, xsi)"],
+        functions=["prov.model.NamespaceManager.valid_qualified_name (URI compaction)", "prov.model.ProvBundle.get_record"],
+        budget_s=(100, 300),
+        per_path_s=(20, 40),
+    ),
     Obligation(
         name="lookup",
         fn=lookup,
